@@ -196,6 +196,7 @@ func capName(c logqlengine.QuerierCapabilities) string {
 
 // c01Check evaluates one (data, query) under every relevant capability split.
 func c01Check(r *vkit.Run, in c01Input, reuse bool) (kept, dropped int) {
+	r.Begin("C01", in)
 	q, data := c01Query(in)
 	in.Query = q.Text()
 	want := refMultiset(refmodel.EvalLog(q, data, -1))
